@@ -254,7 +254,7 @@ def task(args):
 
 def run(run):
     max_dev = 1 if run.tier == "quick" else 2
-    cap = 400 if run.tier == "quick" else 6000
+    cap = 400 if run.tier == "quick" else 3000
     d = dino_configs(run.tier)
     j = ijepa_configs(run.tier)
     k = run.seed % 5
